@@ -25,15 +25,15 @@ pub struct StrSpec {
     pub bulk: u64,
 }
 
-pub const SCLASS: [&str; 8] = ["uniform", "zero", "l-1", "l", "l+1", "2^255-1", "high-bit", "all-ff"];
+pub const SCLASS: [&str; 10] = ["uniform", "zero", "l-1", "l", "l+1", "2^255-1", "high-bit", "all-ff", "l+limb-delta", "l-limb-delta"];
 
 fn str_strategy() -> impl Strategy<Value = StrSpec> {
     (
         prop_oneof![12 => 1u8..=6, 2 => Just(0u8), 2 => Just(7u8), 1 => Just(8u8), 1 => Just(255u8), 1 => any::<u8>()],
-        prop_oneof![10 => 0u8..=6, 2 => 7u8..=40, 1 => Just(70u8)],
+        prop_oneof![10 => 0u8..=6, 2 => 7u8..=40, 1 => Just(70u8), 2 => 126u8..=131, 1 => 250u8..=255],
         prop_oneof![6 => Just(0i8), 1 => Just(-2i8), 2 => Just(-1i8), 2 => Just(1i8), 1 => Just(2i8)],
         prop_oneof![6 => Just(0u8), 2 => 1u8..=33],
-        prop::collection::vec(prop_oneof![8 => Just(0u8), 1 => Just(1u8), 1 => Just(2u8), 1 => Just(3u8), 1 => Just(4u8), 1 => Just(5u8), 1 => Just(6u8), 1 => Just(7u8)], 1..=8),
+        prop::collection::vec(prop_oneof![8 => Just(0u8), 1 => Just(1u8), 1 => Just(2u8), 1 => Just(3u8), 1 => Just(4u8), 1 => Just(5u8), 1 => Just(6u8), 1 => Just(7u8), 2 => Just(8u8), 1 => Just(9u8)], 1..=8),
         0u8..4,
         any::<u64>(),
     )
@@ -73,8 +73,51 @@ fn scalar_bytes(class: u8, rng: &mut impl RngCore) -> [u8; 32] {
             b[31] |= 0x80;
             b
         },
-        _ => [0xff; 32],
+        7 => [0xff; 32],
+        c => {
+            // l plus / minus a random delta that touches one to three 64-bit limbs (and borrows / carries between them)
+            let limbs = 1 + (rng.next_u32() % 3) as usize;
+            let mut d = [0u8; 32];
+            rng.fill_bytes(&mut d[..8 * limbs]);
+            if rng.next_u32() % 2 == 0 {
+                // a delta of the form 2^(64k) - small produces borrows across limbs
+                let small = (rng.next_u32() % 4) as u8;
+                d = [0u8; 32];
+                d[8 * limbs] = 1;
+                d = sub256(&d, &{
+                    let mut s = [0u8; 32];
+                    s[0] = small;
+                    s
+                });
+            }
+            if c == 8 {
+                add256(&ELL, &d)
+            } else {
+                sub256(&ELL, &d)
+            }
+        },
     }
+}
+
+fn add256(a: &[u8; 32], b: &[u8; 32]) -> [u8; 32] {
+    let mut r = [0u8; 32];
+    let mut c = 0u16;
+    for i in 0..32 {
+        let s = a[i] as u16 + b[i] as u16 + c;
+        r[i] = s as u8;
+        c = s >> 8;
+    }
+    r
+}
+fn sub256(a: &[u8; 32], b: &[u8; 32]) -> [u8; 32] {
+    let mut r = [0u8; 32];
+    let mut c = 0i16;
+    for i in 0..32 {
+        let s = a[i] as i16 - b[i] as i16 - c;
+        r[i] = s as u8;
+        c = if s < 0 { 1 } else { 0 };
+    }
+    r
 }
 
 pub fn build_string(spec: &StrSpec) -> (Vec<u8>, bool, bool) {
@@ -89,7 +132,7 @@ pub fn build_string(spec: &StrSpec) -> (Vec<u8>, bool, bool) {
         if is_scalar {
             let slot = if i < d { i } else { i - 3 };
             let c = spec.scalars[slot % spec.scalars.len()];
-            if c >= 3 {
+            if (3..=8).contains(&c) {
                 noncanon = true;
             }
             v.extend_from_slice(&scalar_bytes(c, &mut rng));
@@ -292,8 +335,8 @@ pub fn def() -> PropertyDef {
         level: "exploration",
         rule: "Two generators (plus the libFuzzer target `decode` in the thorough tier, which runs the same in-target oracle from an empty \
                corpus and from honest proofs). (i) structured byte strings: first byte in {1..6, 0, 7, 8, 255, any}, element count 5+d+2k+offset \
-               with k in {0..6, 70} and offset in {-2..2}, 0..33 trailing bytes, each scalar slot in {uniform canonical, 0, l-1, l, l+1, \
-               2^255-1, high bit set, all 0xff}, point slots {random, zero, 0xff, basepoint}; plus truncations (1, 31, 32, 33 bytes) and a \
+               with k in {0..6, 7..40, 70, 126..131, 250..255} and offset in {-2..2}, 0..33 trailing bytes, each scalar slot in {uniform canonical, 0, l-1, l, l+1, \
+               2^255-1, high bit set, all 0xff, l +- a delta touching one to three 64-bit limbs}, point slots {random, zero, 0xff, basepoint}; plus truncations (1, 31, 32, 33 bytes) and a \
                one-byte extension of every accepted string. (ii) prover output in every lattice configuration. Oracle: from_bytes accepts <=> \
                independent predicate (own length arithmetic, own 256-bit comparison with l); accept => re-encoding is byte-identical; bincode \
                deserialize(len || x) accepts <=> from_bytes accepts, equal value; serialize(p) == len || to_bytes(p); degree helper == first-byte \
